@@ -23,7 +23,7 @@ open LV.PoolLts
     behaviour: the messages committed at the peer are as many as the sends that reported
     success. -/
 theorem commits_equal_successes (isAsync : Bool) (maxSize minIdle sends nSenders : Nat)
-    (plans : List (Option Nat × Option Nat)) (es : List Ev) (s : St)
+    (plans : List Plan) (es : List Ev) (s : St)
     (hr : run (init isAsync maxSize minIdle sends nSenders plans) es = some s) :
     totalCommits s = totalOk s :=
   (valid_count_run es _ s (valid_init ..) (count_init ..) hr).2
@@ -32,7 +32,7 @@ theorem commits_equal_successes (isAsync : Bool) (maxSize minIdle sends nSenders
     parked in the idle set, held by exactly one sender, waiting in exactly one (tokio) recycle
     task, or held by the maintenance worker — never two of these, never twice in one. -/
 theorem one_place_at_a_time (isAsync : Bool) (maxSize minIdle sends nSenders : Nat)
-    (plans : List (Option Nat × Option Nat)) (es : List Ev) (s : St)
+    (plans : List Plan) (es : List Ev) (s : St)
     (hr : run (init isAsync maxSize minIdle sends nSenders plans) es = some s) (c : Nat) :
     occ s c ≤ 1 :=
   (valid_excl_run es _ s (valid_init ..) (excl_init isAsync maxSize minIdle sends nSenders plans) hr).2 c
@@ -46,7 +46,7 @@ theorem transaction_commits_iff_ok (k : Conn) (i m : Nat) :
 /-- Every connection id held anywhere (parked, in use, being returned, held by the worker) is the
     id of a connection that was opened: no transition invents or loses track of a connection. -/
 theorem ids_valid (isAsync : Bool) (maxSize minIdle sends nSenders : Nat)
-    (plans : List (Option Nat × Option Nat)) (es : List Ev) (s : St)
+    (plans : List Plan) (es : List Ev) (s : St)
     (hr : run (init isAsync maxSize minIdle sends nSenders plans) es = some s) : Valid s :=
   (valid_count_run es _ s (valid_init ..) (count_init ..) hr).1
 
